@@ -70,6 +70,26 @@ package common
 //@   ensures fresh(result) && !isnil(result)
 //@   ensures bytes(result) == cat(bytes(commonBytes), be(val(appended)))
 
+// ----- hash.go -----
+// The digest input is pinned to the framing spec functions framei / frameb of
+// /verif/prelude/prelude.smt2: count prefix, then per element: bytes, '$', 8-byte length.
+
+//@ define hashI(in) = beint(hashfn(15, framei(le64(len(in)), elems(in), off(in), len(in), bvheap())))
+
+//@ func SHA512_256i
+//@   deadpoints 2
+//@   props C16 C06 C12 C10
+//@   requires [non-nil-inputs] forall k in 0..len(in) :: in[k] != nil
+//@   requires [input-count] len(in) <= 8192
+//@   ensures [C16.empty] len(in) == 0 ==> result == nil
+//@   ensures [C16.framing] len(in) > 0 ==> (result != nil && fresh(result) && val(result) == old(hashI(in)))
+//@   ensures len(in) > 0 ==> (0 <= val(result) && bitlen(val(result)) <= 256)
+//@   loop 0 invariant 0 <= bzSize && bzSize <= $iter * 281474976710656 && len(ptrs) == inLen && fresh(ptrs) && inLen == len(in)
+//@   loop 0 invariant forall k in 0..$iter :: (bytes(ptrs[k]) == be(val(in[k])) && allocated(ptrs[k]))
+//@   loop 1 invariant len(ptrs) == inLen && fresh(ptrs) && inLen == len(in) && fresh(data) && allocated(data)
+//@   loop 1 invariant forall k in 0..inLen :: (bytes(ptrs[k]) == be(val(in[k])) && arr(ptrs[k]) != arr(data) && allocated(ptrs[k]))
+//@   loop 1 invariant [C16.frame-prefix] bytes(data) == framei(le64(inLen), elems(in), off(in), $iter, bvheap())
+
 // ----- hash_utils.go -----
 
 //@ func RejectionSample
@@ -83,6 +103,7 @@ package common
 // ----- random.go -----
 
 //@ func MustGetRandomInt
+//@   deadpoints 2
 //@   props C06 C19
 //@   requires rand != nil
 //@   requires [bits-in-range] 0 < bits && bits <= 5000
@@ -122,6 +143,7 @@ package common
 //@ func GetRandomBytes
 //@   props C06
 //@   requires rand != nil
+//@   requires [length-bound] length <= 1073741824
 //@   ensures result1 == nil ==> len(result0) == length
 
 // ----- slice.go -----
